@@ -16,7 +16,7 @@ import (
 )
 
 func init() {
-	pbt.Describe("strings/pairs/triples/lists drawn from a semver-shaped grammar (fields short, long up to 40 digits, 64-bit edge values, zero, leading-zero, empty; numeric/alphanumeric/hyphen prerelease identifiers; build metadata; shortened forms), 'near' variants that differ in one component, one-byte mutations and arbitrary strings; oracle = independent regexp validity + math/big precedence model and order axioms. Non-trivial: single = string valid or one mutation away from the grammar; pair/triple/sort = at least two operands valid and sharing MAJOR.MINOR.PATCH numerically, or a numeric field longer than 19 digits. Distinct by the JSON rendering of the case.",
+	pbt.Describe("strings/pairs/triples/lists drawn from a semver-shaped grammar (fields short, long up to 40 digits, 64-bit edge values, zero, leading-zero, empty; numeric/alphanumeric/hyphen prerelease identifiers; build metadata; shortened forms), 'near' variants that differ in one component, one-byte mutations and arbitrary strings; oracle = independent regexp validity + math/big precedence model and order axioms. Non-trivial: single = string valid or one mutation away from the grammar; pair/triple/sort = at least two operands valid and sharing MAJOR.MINOR.PATCH numerically, or a numeric field longer than 19 digits. Distinct by the JSON rendering of the case. Hostile identifiers and string mutations also insert any single byte 0..255 drawn uniformly. (On long lists of very long versions the all-pairs Less comparison thins out to neighbours and two further elements per element.)",
 		"reference model semverref transcribes the package comment and SemVer 2.0.0 section 11", "regexp and math/big of the standard library are correct")
 }
 
@@ -289,9 +289,19 @@ func checkList(c list) pbt.Result {
 		r.Classes = append(r.Classes, "tie-by-string")
 	}
 	// ByVersion.Less agrees with (Compare, string) on every pair
+	// (all pairs, unless the list is long and its versions are very long: the harness's own quadratic cost is
+	// then bounded by comparing each element with its neighbours and two elements further away)
 	bv := semver.ByVersion(in)
+	total := 0
+	for _, v := range in {
+		total += len(v)
+	}
+	sparse := total*len(in) > 32<<20
 	for i := range in {
 		for j := range in {
+			if d := (j - i + len(in)) % len(in); sparse && d > 1 && d < len(in)-1 && j != (i*7+3)%len(in) && j != (i*13+5)%len(in) {
+				continue
+			}
 			c := ref.Compare(in[i], in[j])
 			want := c < 0 || c == 0 && in[i] < in[j]
 			if bv.Less(i, j) != want {
